@@ -488,9 +488,9 @@ class NameConverter(ast.NodeTransformer):
         def _make_lookup_call(key, arg):
             # (not the bare name `type`, which the method may shadow)
             name = (
-                "__SUBTLER_TYPE"
+                "__SUBTLER_TYPE__"
                 if self.analysis.lookup_for(key) is subtler_type
-                else "__PLAIN_TYPE"
+                else "__PLAIN_TYPE__"
             )
             if written is None:
                 value = ast.NamedExpr(
@@ -692,15 +692,16 @@ class _Mangler(ast.NodeTransformer):
 
 
 def recode(fn, ovld, recurse_sym, call_next_sym, newname, slot=None):
-    ovld_mangled = f"___OVLD{ovld.id}"
-    map_mangled = f"___MAP{ovld.id}"
+    # (names that end in __ are not mangled inside a class statement)
+    ovld_mangled = f"___OVLD{ovld.id}__"
+    map_mangled = f"___MAP{ovld.id}__"
     # call_next looks up the continuation under the code object found in this
     # global. A method keeps the same global across rebuilds of the ovld, so
     # that an activation that started before a rebuild continues below the
     # current version of itself instead of starting over.
     if slot is None:
         slot = next(_current)
-    code_mangled = f"___CODE{slot}"
+    code_mangled = f"___CODE{slot}__"
     try:
         src = inspect.getsource(fn)
     except OSError:  # pragma: no cover
@@ -761,8 +762,8 @@ def recode(fn, ovld, recurse_sym, call_next_sym, newname, slot=None):
     new_fn.__kwdefaults__ = fn.__kwdefaults__
     new_fn.__annotations__ = fn.__annotations__
     new_fn = _mark_code(rename_function(new_fn, newname), slot)
-    new_fn.__globals__["__SUBTLER_TYPE"] = subtler_type
-    new_fn.__globals__["__PLAIN_TYPE"] = type
+    new_fn.__globals__["__SUBTLER_TYPE__"] = subtler_type
+    new_fn.__globals__["__PLAIN_TYPE__"] = type
     new_fn.__globals__[ovld_mangled] = ovld.dispatch
     new_fn.__globals__[map_mangled] = ovld.map
     new_fn.__globals__[code_mangled] = new_fn.__code__
